@@ -41,7 +41,7 @@ def gen_table(rng, family, base):
                 el = rng.choice(COMMON)
                 K[key_of(el, rng.choice((1, -1, 2, -2, 3)))] = rng.randint(0, 7)
             elif u < 0.9:
-                K["?"] = rng.choice((0, 1, 2, 3, 4, 6, 8, 9, 12))
+                K["?"] = rng.randint(0, 12)
             elif len(K) > 2:
                 k = rng.choice([k for k in K if k != "?"])
                 del K[k]
@@ -50,14 +50,14 @@ def gen_table(rng, family, base):
         K = {}
         for _ in range(rng.randint(1, 6)):
             K[key_of(rng.choice(COMMON), rng.choice((0, 0, 0, 1, -1)))] = rng.choice((0, 1, 1, 2, 3, 4, 5, 6))
-        K["?"] = rng.choice((0, 1, 2, 3, 4, 8))
+        K["?"] = rng.randint(0, 9)
         return _shuffle_q(rng, K)
     if family == "large":
         K = {}
         for _ in range(rng.randint(10, 40)):
             el = rng.choice(ELEMENTS) if rng.random() < 0.6 else rng.choice(COMMON)
             K[key_of(el, rng.choice((0, 0, 0, 1, -1, 2, -2, 3)))] = rng.choice((0, 1, 2, 3, 4, 5, 6, 7, 8, 9, 10, 11, 12))
-        K["?"] = rng.choice((0, 1, 4, 8, 9, 12))
+        K["?"] = rng.randint(0, 12)
         return _shuffle_q(rng, K)
     if family == "charges":
         K = {}
@@ -65,7 +65,7 @@ def gen_table(rng, family, base):
             el = rng.choice(COMMON) if rng.random() < 0.7 else rng.choice(ELEMENTS)
             ch = rng.choice((4, 5, 9, 10, 11, 12, 20, 100, 19, -4, -9, -10, -11, -12, -30, 1, -1))
             K[key_of(el, ch)] = rng.choice((0, 1, 2, 3, 4, 5, 6, 8))
-        K["?"] = rng.choice((1, 2, 3, 4, 8))
+        K["?"] = rng.randint(0, 9)
         return _shuffle_q(rng, K)
     raise ValueError(family)
 
